@@ -85,6 +85,27 @@ class C18(Prop):
             out.append(self._inv(mode, tl, it, dict(
                 features=('reject', 'n%d' % n, 'named' if named else 'tuple', 'traits%d' % ti, mode),
                 nfields=n, traits=[t for t, _ in tl], reject=True)))
+        # several fields of which all but one are markers (`PhantomData<..>`, however spelled): still several fields
+        PH = [sx.tgen('PhantomData', sx.tid('T')),
+              sx.tpath(['core', 'marker', sx.seg('PhantomData', ('angle', [sx.gty(sx.tid('T'))]))], lead=True),
+              sx.tpath(['std', 'marker', sx.seg('PhantomData', ('angle', [sx.gty(sx.tref(sx.tid('T'), lt='a'))]))])]
+        k = 0
+        for pos, named, (ti, tl), mode in itertools.product([0, 1, 2], [False, True], enumerate(trait_lists[:3]), ['attr', 'derive']):
+            k += 1
+            ph = PH[k % 3]
+            data = sx.tid('u8') if k % 2 else sx.tid('T')
+            tys = [ph, ph]
+            tys.insert(pos, data)
+            tys = tys[:2 + (k % 2)]
+            if data not in tys:
+                tys[0] = data
+            names = ['a', 'b', 'c']
+            fs = [sx.field(t, name=names[i] if named else None) for i, t in enumerate(tys)]
+            needs = {'T'} | ({"'a"} if ph is PH[2] else set())
+            it = sx.struct('X', sx.named(fs) if named else sx.unnamed(fs), gen=generics_for(needs, style=0))
+            out.append(self._inv(mode, tl, it, dict(
+                features=('reject', 'markers', 'pos%d' % pos, 'named' if named else 'tuple', 'traits%d' % ti, mode, 'n%d' % len(tys)),
+                nfields=len(tys), traits=[t for t, _ in tl], reject=True)))
         # enums are not supported
         for mode in ['attr', 'derive']:
             en = sx.enum('E', [sx.variant('A', sx.unnamed([sx.field(sx.tid('u8'))]))])
